@@ -290,6 +290,8 @@ def check(run: Run) -> None:
                 if reads and appends:
                     found[fd_.cls] = rel
         run.count(len(found), "C07.f")
+        if run._cur is not None:
+            run._cur["sites"] = len(found)
         for cls in sorted(set(found) - set(ACCUMULATORS)):
             run.finding("C07.f", f"accumulator:{cls}:unclassified", f"{cls}::eval appends to a buffer it reads from the GlobalState and is not in the confirmed table: say whether "
                         "its start discards the seeded buffer or why it is persistent by design", loc=found[cls])
@@ -310,8 +312,77 @@ def check(run: Run) -> None:
                                                                  for c in (R.calls(n.ast) if n.ast is not None else []))
             R.k2_precede(run, "C07.f", fl, is_erase, lambda n, fl=fl: n.id == fl.cfg.exit, f"{cls}::start erases the recorder key before it returns")
 
+    with run.obligation("C07.g", "K2", "process-wide scope stacks (push_X / pop_X pairs on the operator registry and its wrappers) are only pushed under an owner that pops on EVERY exit, "
+                        "the exceptional one included: a constructor whose destructor pops, or a scope-exit guard declared right after the push; a wiring that fails "
+                        "must not leave its scope behind for the next graph built in the process"):
+        names: Dict[str, List] = {}
+        for rel in run.tree.all_files():
+            if not rel.startswith(("include/hgraph/", "src/hgraph/")) or "push_" not in run.tree.read(rel):
+                continue
+            for fd_ in run.tree.file(rel).funcs:
+                names.setdefault(fd_.name, []).append((rel, fd_))
+        # container methods of the value layer (push_back / pop_back, push_heap / pop_heap) are data operations, not scopes
+        pairs = {nm: "pop_" + nm[5:] for nm in names if nm.startswith("push_") and ("pop_" + nm[5:]) in names and nm not in ("push_back", "push_front", "push_heap")}
+        if len(pairs) < 3:
+            raise AnalysisError("anchor-vanished", f"C07.g: found {sorted(pairs)} push/pop pairs, expected at least mesh_scope, context_scope, context_source")
+        calls_pop = lambda node, pop: any(R.callee_name(c).split("::")[-1].split(".")[-1].split("->")[-1] == pop for c in R.calls(node))
+        sites = 0
+        for rel in run.tree.all_files():
+            if not rel.startswith(("include/hgraph/", "src/hgraph/")):
+                continue
+            txt = run.tree.read(rel)
+            if not any(p_ in txt for p_ in pairs):
+                continue
+            fi_ = run.tree.file(rel)
+            for fd_ in fi_.funcs:
+                if fd_.body is None or not any(p_ in fi_.text(fd_.body[0], fd_.body[1]) for p_ in pairs):
+                    continue
+                fa_ = R.parse(run, fd_, strict=False)
+                for blk in [n for n in fa_.body.walk() if isinstance(n, C.Block)]:
+                    for k, st in enumerate(blk.stmts):
+                        if not isinstance(st, C.ExprStmt):
+                            continue
+                        for c in R.calls(st):
+                            nm = R.callee_name(c).split("::")[-1].split(".")[-1].split("->")[-1]
+                            if nm not in pairs:
+                                continue
+                            pop = pairs[nm]
+                            sites += 1
+                            # a forwarding wrapper that is itself one half of a pair (push_context_source -> push_context_scope)
+                            if fd_.name in pairs:
+                                continue
+                            # RAII: constructor whose destructor pops
+                            if fd_.cls and fd_.name == fd_.cls:
+                                dtors = [f for f in fi_.funcs if f.cls == fd_.cls and f.name == "~" + fd_.cls and f.body is not None]
+                                if dtors and all(calls_pop(R.parse(run, d_, strict=False).body, pop) or calls_pop(R.parse(run, d_, strict=False).body, pairs.get(fd_.name, pop))
+                                                 for d_ in dtors):
+                                    continue
+                                # the destructor may pop through the wrapper's partner
+                                if dtors and any(calls_pop(R.parse(run, d_, strict=False).body, p2) for d_ in dtors for p2 in pairs.values()):
+                                    continue
+                            # guard declared in the very next statement
+                            nxt = blk.stmts[k + 1] if k + 1 < len(blk.stmts) else None
+                            ok = False
+                            if isinstance(nxt, C.Decl):
+                                for d_ in nxt.decls:
+                                    if d_.init is not None and any(R.callee_name(c2).split("::")[-1] == "make_scope_exit" and
+                                                                   any(isinstance(a_, C.Lambda) and calls_pop(a_.body, pop) for a_ in c2.args)
+                                                                   for c2 in R.calls(d_.init) + ([d_.init] if isinstance(d_.init, C.Call) else [])):
+                                        ok = True
+                            if not ok:
+                                run.finding("C07.g", f"{fd_.qual}:{nm}:not-scoped", f"{fd_.qual} pushes {nm} without an owner that calls {pop} on every exit (no scope-exit guard "
+                                            "directly after the push, not a constructor whose destructor pops): an exception between push and pop leaves the scope on the "
+                                            "process-wide stack for every graph wired afterwards", loc=fa_.loc(st))
+        run.count(sites, "C07.g")
+        if run._cur is not None:
+            run._cur["sites"] = sites
+        if sites < 3:
+            raise AnalysisError("anchor-vanished", f"C07.g: {sites} push sites found, expected at least 3")
+
 
 VARIANTS = [
+    {"id": "g-mesh-scope-popped-only-on-success", "expect": "C07.g", "edits": [{"file": "include/hgraph/lib/std/operators/impl/higher_order_impl.h", "find": "                auto pop = make_scope_exit([] noexcept { OperatorRegistry::instance().pop_mesh_scope(); });\n", "replace": ""}, {"file": "include/hgraph/lib/std/operators/impl/higher_order_impl.h", "find": "explicit_key_meta, &external_services, &w, \"mesh_\");\n", "replace": "explicit_key_meta, &external_services, &w, \"mesh_\");\n                OperatorRegistry::instance().pop_mesh_scope();\n"}]},
+    {"id": "g-context-scope-destructor-forgets-pop", "expect": "C07.g", "edits": [{"file": "include/hgraph/types/context_wiring.h", "find": "        ~scope() { graph_wiring_detail::pop_context_source(); }", "replace": "        ~scope() {}"}]},
     {"id": "f-recorder-keeps-seeded-buffer-when-sparse", "expect": "C07.f", "edits": [{"file": "include/hgraph/lib/std/operators/impl/record_replay_memory_impl.h", "find": "                          Scalar<\"key\", std::string> key, Scalar<\"sparse\", Bool>, Scalar<\"model\", Str>,\n                          GlobalStateView gs, State<ResolvedBindings> bindings)", "replace": "                          Scalar<\"key\", std::string> key, Scalar<\"sparse\", Bool> sparse, Scalar<\"model\", Str>,\n                          GlobalStateView gs, State<ResolvedBindings> bindings)"}, {"file": "include/hgraph/lib/std/operators/impl/record_replay_memory_impl.h", "find": "            gs.erase(key.value());", "replace": "            if (!sparse.value()) { gs.erase(key.value()); }"}]},
     {"id": "f-twin-erase-first", "expect": None, "edits": [{"file": "include/hgraph/lib/std/operators/impl/record_replay_memory_impl.h", "find": "            bindings.set(ResolvedBindings{\n                .primary = testing::recording_binding_for(ts.base().schema()->delta_value_schema)});\n            gs.erase(key.value());", "replace": "            gs.erase(key.value());\n            bindings.set(ResolvedBindings{\n                .primary = testing::recording_binding_for(ts.base().schema()->delta_value_schema)});"}]},
     {"id": "c-marker-loses-thread-local", "expect": "C07.c", "edits": [{"file": "src/hgraph/runtime/global_state.cpp", "find": "        thread_local GlobalContext *active_global_context = nullptr;", "replace": "        GlobalContext *active_global_context = nullptr;"}]},
